@@ -209,6 +209,14 @@ def join_sib(ctx, rule="JOIN-SIB"):
                     pad.append(g)
     if not pad:
         pad = [t for b, t in f.calls() if (t.get("callee") or "").endswith("iter::repeat_n") and "ValueRef::Null" in S.val(t["args"][0]) and arm_at(b) == "Left"]
+    if not pad:
+        # a loop over the right table's columns pushing ValueRef::Null
+        lps = cfg.natural_loops(f)
+        for b, t in f.calls():
+            if (t.get("callee") or "").endswith("Iterator::next") and arm_at(b) == "Left" and "Table::columns(" in S.val(t["args"][0]):
+                body = [bl for h, bl in lps.items() if b in bl]
+                if body and any((tt.get("callee") or "").endswith("Vec::<T, A>::push") and bb in min(body, key=len) and "ValueRef::Null" in S.val(tt["args"][1]) for bb, tt in f.calls()):
+                    pad.append(t)
     ctx.check(len(pad) == 1, rule, "left join pads with ValueRef::Null per right column", "", "found %d Null-padding closures in Join::exec, expected 1" % len(pad), f.loc(), fn=f.name)
     # prefix pairing: in each arm, the two prefixes are table1.name() for table1.columns() and table2.name() for table2.columns()
     for g, blk in wn:
@@ -250,6 +258,12 @@ def join_shape(ctx, rule="JOIN-SHAPE"):
         for c in cs:
             if c[1].endswith("iter::repeat_n") and arm_of(c[0]) == arm and "ValueRef::Null" in c[2][0] and "Table::columns(" in c[2][1]:
                 pad.append((c[0], c[1], [c[2][1], "agg{}"], c[3]))
+        # ... or as a loop over right.columns() that pushes ValueRef::Null onto the copied left row
+        for c in cs:
+            if c[1].endswith("Iterator>::next") and arm_of(c[0]) == arm and "Table::columns(" in c[2][0]:
+                body = [bl for h, bl in loops.items() if c[0] in bl]
+                if body and any(cc[1].endswith("Vec::<T, A>::push") and cc[0] in min(body, key=len) and "ValueRef::Null" in cc[2][1] for cc in cs):
+                    pad.append((c[0], c[1], [c[2][0], "agg{}"], c[3]))
         okp = len(pref) == 2 and all(tid(c[2][0]) == tid(c[2][1]) for c in pref) and sorted(tid(c[2][0]) for c in pref) == sorted([T1, T2])
         ctx.check(okp, rule, "%s: each side's columns are prefixed with its own table name" % arm, "", "Join::%s prefixes columns of table %s with the name of table %s" % (
             arm, [tid(c[2][0]) for c in pref], [tid(c[2][1]) for c in pref]), f.loc(), fn=f.name, key="%s|%s|prefix" % (rule, arm))
@@ -293,7 +307,7 @@ def join_shape(ctx, rule="JOIN-SHAPE"):
             ctx.check(okn, rule, "Left: null padding has one Null per right column", "", "Join::Left pads unmatched rows over the columns of table %s, expected the right table %s" % (
                 [tid(c[2][0]) for c in pad], T2), f.loc(), fn=f.name, key="%s|Left|pad" % rule)
             # padded row pushed on the `no match found` edge of a flag that is reset per left row and set when a match is pushed
-            pp = [c for c in cs if c[1].endswith("Vec::<T, A>::push") and arm_of(c[0]) == "Left" and c not in push]
+            pp = [c for c in cs if c[1].endswith("Vec::<T, A>::push") and arm_of(c[0]) == "Left" and c not in push and (not push or c[2][0] == push[0][2][0])]
             okf = False
             if len(pp) == 1 and push:
                 flags = [(e, tr) for (e, tr, g) in S.bool_facts_at(pp[0][0]) if re.fullmatch(r"_\d+", e)]
